@@ -296,6 +296,36 @@ func init() {
 		"(*sync.RWMutex).Unlock":  func(r *Run, fr *frame, a []value) value { r.lockEvent(fr, a[0], false); return nil },
 		"(*sync.RWMutex).RLock":   func(r *Run, fr *frame, a []value) value { r.lockEvent(fr, a[0], true); return nil },
 		"(*sync.RWMutex).RUnlock": func(r *Run, fr *frame, a []value) value { r.lockEvent(fr, a[0], false); return nil },
+		// sync.Pool: Get hands back the object put most recently (the reuse that the pool exists for) and
+		// calls New otherwise.
+		"(*sync.Pool).Get": func(r *Run, fr *frame, a []value) value {
+			p := a[0].(*value)
+			if l := r.pools[p]; len(l) > 0 {
+				x := l[len(l)-1]
+				r.pools[p] = l[:len(l)-1]
+				return x
+			}
+			st := (*p).(structure)
+			newFn := st[len(st)-1]
+			if newFn == nil {
+				return iface{}
+			}
+			if c, ok := newFn.(*closure); ok && c == nil {
+				return iface{}
+			}
+			if f, ok := newFn.(*ssa.Function); ok && f == nil {
+				return iface{}
+			}
+			return call(fr.i, fr, 0, newFn, nil)
+		},
+		"(*sync.Pool).Put": func(r *Run, fr *frame, a []value) value {
+			p := a[0].(*value)
+			if r.pools == nil {
+				r.pools = map[*value][]value{}
+			}
+			r.pools[p] = append(r.pools[p], a[1])
+			return nil
+		},
 		"(*sync.Once).Do": func(r *Run, fr *frame, a []value) value {
 			o := a[0].(*value)
 			st := (*o).(structure)
